@@ -277,7 +277,7 @@ func runC03(c *Ctx, r *Rec) {
 		}
 		r.check(bad == "", "D1-coupled-updates", construct, c.pos(fd.Pos()), fmt.Sprintf("%d effect(s), pairwise coupled in one control region", len(effs)), bad)
 	}
-	r.floor("D1-coupled-updates", 3)
+	r.floor("D1-coupled-updates", 1)
 
 	// in-place update of SetValue goes to the association found under the same key
 	if fd := ms["SetValue"]; fd != nil {
